@@ -246,6 +246,7 @@ RULES = [
     ("R-C14-gauss-tables", 9, "quadrature tables are Gauss-Legendre rules on [-1, 1]: weights sum to 2, symmetric; nodes antisymmetric", _x3.rule_gauss_tables),
     ("R-C14-q0", 18, "Fq interpreted symbolically at q = 0: F1^2 = F2 (the two quadratures are normalised alike)", _x3.rule_c14_q0),
     ("R-C14-fastpath", 55, "equality-guarded special branches of model code agree with the general branch at the same point", _x3.rule_c14_fastpath),
+    ("R-C14-definite-init", 40, "scalar locals of model code are assigned on every path before they are read", _x3.rule_definit),
     ("R-C14-order-select", 3, "helpers that select smallest / middle / largest of their inputs give the same value for every assignment of ranks to inputs", _x3.rule_c14_ordersel),
     ("R-C14-mode-order", 20, "a half diagonal is at least as long as the half sides / radius it spans (all models)", _x3.rule_c14_modeorder),
     ("R-C14-zero-guard", 4, "a zero test that guards a division tests the divisor, not one factor of it (model code)", _x3.rule_c14_zeroguard),
